@@ -142,23 +142,31 @@ impl<A, K> Router<A, K> {
         A: Clone + Send + 'static,
         K: Clone + Send + Sync + Eq + Hash + 'static,
     {
-        let mut table = self.table.write().unwrap();
         let existing_op;
-        if let Some(weak_stream) = table.get(k) {
-            if let Some(stream) = weak_stream.upgrade() {
-                existing_op = Some(stream);
+        {
+            let table = self.table.read().unwrap();
+            if let Some(weak_stream) = table.get(k) {
+                if let Some(stream) = weak_stream.upgrade() {
+                    existing_op = Some(stream);
+                } else {
+                    existing_op = None;
+                }
             } else {
                 existing_op = None;
             }
-        } else {
-            existing_op = None;
         }
         if let Some(existing) = existing_op {
             existing
         } else {
+            // The table lock is not held while the stream is created: creating it closes a
+            // transaction, whose cycle collection may free a routed stream dropped earlier, and that
+            // stream's clean-up hook locks the table.
             let s = Stream::new(&self.sodium_ctx);
             s.node().data().dependencies.write().push(self.box_clone());
-            table.insert(k.clone(), Stream::downgrade(&s));
+            self.table
+                .write()
+                .unwrap()
+                .insert(k.clone(), Stream::downgrade(&s));
             {
                 let table = self.table.clone();
                 let k = k.clone();
